@@ -191,43 +191,28 @@ Definition sig2_decimals (x : Q) : Z := let '(_, e) := norm10 700 (Qabs x) 0%Z i
 (* Python's float.__round__ is correctly rounded: the double nearest to the exact decimal *)
 Definition py_round_sig2 (x : Q) : Q := if Qeq_bool x 0 then 0%Q else round53 (round_sig2 x).
 
-(* numpy.float64.__round__(d) is NOT: rint(x * 10^d) / 10^d evaluated in double arithmetic (d >= 0),
-   rint(x / 10^-d) * 10^-d otherwise *)
-Definition np_round (x : Q) (d : Z) : Q :=
-  let f := Qpower 10 (Z.abs d) in
-  if (0 <=? d)%Z then round53 (inject_Z (round_half_even (round53 (x * f))) / f)
-  else round53 (inject_Z (round_half_even (round53 (x / f))) * f).
-Definition np_round_sig2 (x : Q) : Q := if Qeq_bool x 0 then 0%Q else np_round x (sig2_decimals x).
-
 Definition zero_limit : Q := (1152921504606847 # 1152921504606846976)%Q.   (* the double 0.001 *)
-(* _is_near_target(x, target, ...): x comes out of a pandas Series (numpy.float64), target is a Python float *)
+(* _is_near_target(x, target, ...): both x (converted with float(), fix 839c032) and target go through Python's
+   round(): the two doubles nearest to the 2-significant-digit decimals are compared *)
 Definition near_target (x target : Q) : bool :=
   if Qeq_bool target 0 then Qlt_bool (Qabs x) (Qabs zero_limit)
-  else Qeq_bool (np_round_sig2 x) (py_round_sig2 target).
-(* documented: within 0.001 of a zero bound, equal to a non-zero bound to 2 significant digits *)
-Definition near_target_spec (x target : Q) : bool :=
-  if Qeq_bool target 0 then Qlt_bool (Qabs x) (Qabs zero_limit)
-  else Qeq_bool (round_sig2 x) (round_sig2 target).
-Definition close_to_bound_gen (near : Q -> Q -> bool) (p : param) (v : Q) : bool :=
-  (match p_lower p with Some lo => near v lo | None => false end)
-  || (match p_upper p with Some up => near v up | None => false end).
-Definition close_to_bound := close_to_bound_gen near_target.
-Definition close_to_bound_spec := close_to_bound_gen near_target_spec.
+  else Qeq_bool (py_round_sig2 x) (py_round_sig2 target).
+Definition close_to_bound (p : param) (v : Q) : bool :=
+  (match p_lower p with Some lo => near_target v lo | None => false end)
+  || (match p_upper p with Some up => near_target v up | None => false end).
 (* check_parameters_near_bounds(model, values).any(); KeyError for a name that is not a model parameter *)
-Fixpoint near_bounds_any_gen (near : Q -> Q -> bool) (ps : list param) (vals : list (id * Q)) : res bool :=
+Fixpoint near_bounds_any (ps : list param) (vals : list (id * Q)) : res bool :=
   match vals with
   | [] => Ok false
   | (n, v) :: tl =>
       match find (fun p => Pos.eqb (p_name p) n) ps with
       | None => Err EKey
-      | Some p => match near_bounds_any_gen near ps tl with
+      | Some p => match near_bounds_any ps tl with
                   | Err e => Err e
-                  | Ok b => Ok (close_to_bound_gen near p v || b)
+                  | Ok b => Ok (close_to_bound p v || b)
                   end
       end
   end.
-Definition near_bounds_any := near_bounds_any_gen near_target.
-Definition near_bounds_any_spec := near_bounds_any_gen near_target_spec.
 
 (* ---- the environment set up by is_strictness_fulfilled before eval() *)
 Definition uses_rse_sub (e : sexpr) : bool := uses e S_rse_theta || uses e S_rse_omega || uses e S_rse_sigma.
@@ -246,8 +231,7 @@ Definition setup_error (e : sexpr) (r : resrec) : option err :=
 Definition vals {A} (l : list (id * A)) : list A := map snd l.
 Definition olist {A} (o : option (list A)) : list A := match o with Some l => l | None => [] end.
 
-(* value of a boolean criterion.  [sic]: the NaN test of the omega and sigma gradient criteria reads the
-   THETA rows (tools/run.py, is_strictness_fulfilled). *)
+(* value of a boolean criterion (the NaN test of each gradient criterion reads its own rows, fix 6a7564c) *)
 Definition bool_value (ps : list param) (r : resrec) (n : sname) : res bool :=
   let g := olist (r_grad r) in
   let est := olist (r_est r) in
@@ -257,8 +241,8 @@ Definition bool_value (ps : list param) (r : resrec) (n : sname) : res bool :=
   | S_maxevals_exceeded => Ok (match r_term r with TMaxevals => true | _ => false end)
   | S_fzg => Ok (r_wfzg r)
   | S_fzg_theta => Ok (any_zero (rows_of ps is_theta g) || any_null (rows_of ps is_theta g))
-  | S_fzg_omega => Ok (any_zero (rows_of ps is_omega g) || any_null (rows_of ps is_theta g))
-  | S_fzg_sigma => Ok (any_zero (rows_of ps is_sigma g) || any_null (rows_of ps is_theta g))
+  | S_fzg_omega => Ok (any_zero (rows_of ps is_omega g) || any_null (rows_of ps is_omega g))
+  | S_fzg_sigma => Ok (any_zero (rows_of ps is_sigma g) || any_null (rows_of ps is_sigma g))
   | S_enb => near_bounds_any ps est
   | S_enb_theta => near_bounds_any ps (rows_of ps is_theta est)
   | S_enb_omega => near_bounds_any ps (rows_of ps is_omega est)
@@ -279,18 +263,15 @@ Definition num_value (ps : list param) (r : resrec) (n : sname) : res (list (opt
   | _ => Err EInternal
   end.
 
-(* [rebound]: when rse_theta/omega/sigma is mentioned, the local variable `rse` is re-bound to the pandas
-   Series, so `rse <op> n` yields a Series whose truth value raises ValueError when it is tested
-   (it always is in rank_models).  Evaluation is short-circuiting, left to right, like Python's. *)
-Fixpoint seval (rebound : bool) (ps : list param) (r : resrec) (e : sexpr) : res bool :=
+(* eval(strictness): short-circuiting, left to right, like Python's (the rse_theta/omega/sigma block no longer
+   re-binds `rse`, fix 382c897) *)
+Fixpoint seval (ps : list param) (r : resrec) (e : sexpr) : res bool :=
   match e with
   | SB n => bool_value ps r n
-  | SCmp n op v =>
-      if rebound && sname_eqb n S_rse then Err EValue
-      else match num_value ps r n with Ok l => Ok (arr_cmp op l v) | Err x => Err x end
-  | SNot a => match seval rebound ps r a with Ok b => Ok (negb b) | Err x => Err x end
-  | SAnd a b => match seval rebound ps r a with Ok true => seval rebound ps r b | Ok false => Ok false | Err x => Err x end
-  | SOr a b => match seval rebound ps r a with Ok true => Ok true | Ok false => seval rebound ps r b | Err x => Err x end
+  | SCmp n op v => match num_value ps r n with Ok l => Ok (arr_cmp op l v) | Err x => Err x end
+  | SNot a => match seval ps r a with Ok b => Ok (negb b) | Err x => Err x end
+  | SAnd a b => match seval ps r a with Ok true => seval ps r b | Ok false => Ok false | Err x => Err x end
+  | SOr a b => match seval ps r a with Ok true => Ok true | Ok false => seval ps r b | Err x => Err x end
   end.
 
 (* the strictness argument: "" | an expression of the documented grammar | a string that one of the two
@@ -308,22 +289,49 @@ Definition is_strictness_fulfilled (s : strictness) (c : cand) : res bool :=
       | StExpr e =>
           match setup_error e (c_res c) with
           | Some x => Err x
-          | None => seval (uses_rse_sub e) (c_params c) (c_res c) e
+          | None => seval (c_params c) (c_res c) e
           end
       end
   end.
 
-(* ---- the documented meaning (docs/strictness.rst) *)
+(* ---- the documented meaning (docs/strictness.rst), criterion by criterion *)
+Definition zero_or_nan_gradient (ps : list param) (k : pkind -> bool) (r : resrec) : bool :=
+  existsb (fun row => match snd row with Some x => Qeq_bool x 0 | None => true end) (rows_of ps k (olist (r_grad r))).
+(* "near its boundary (maximum distance to 0 = 0.001, maximum distance to non-zero bound = 2 significant digits)":
+   equal to the bound after both are rounded to 2 significant digits (ties to even on the exact value; the
+   rounded decimals are compared as doubles — Properties.round53_separates_sig2_decimals) *)
+Definition spec_near_bound (x bound : Q) : bool :=
+  if Qeq_bool bound 0 then Qlt_bool (Qabs x) zero_limit
+  else Qeq_bool (round53 (round_sig2 x)) (round53 (round_sig2 bound)).
+Definition spec_near_any (ps : list param) (ests : list (id * Q)) : res bool :=
+  (fix go (l : list (id * Q)) : res bool :=
+     match l with
+     | [] => Ok false
+     | (n, v) :: tl =>
+         match find (fun p => Pos.eqb (p_name p) n) ps with
+         | None => Err EKey
+         | Some p =>
+             match go tl with
+             | Err e => Err e
+             | Ok b => Ok ((match p_lower p with Some lo => spec_near_bound v lo | None => false end)
+                           || (match p_upper p with Some up => spec_near_bound v up | None => false end) || b)
+             end
+         end
+     end) ests.
 Definition spec_bool_value (ps : list param) (r : resrec) (n : sname) : res bool :=
-  let g := olist (r_grad r) in
   match n with
-  | S_fzg_omega => Ok (any_zero (rows_of ps is_omega g) || any_null (rows_of ps is_omega g))
-  | S_fzg_sigma => Ok (any_zero (rows_of ps is_sigma g) || any_null (rows_of ps is_sigma g))
-  | S_enb => near_bounds_any_spec ps (olist (r_est r))
-  | S_enb_theta => near_bounds_any_spec ps (rows_of ps is_theta (olist (r_est r)))
-  | S_enb_omega => near_bounds_any_spec ps (rows_of ps is_omega (olist (r_est r)))
-  | S_enb_sigma => near_bounds_any_spec ps (rows_of ps is_sigma (olist (r_est r)))
-  | _ => bool_value ps r n
+  | S_minimization_successful => Ok (r_minsucc r)
+  | S_rounding_errors => Ok (match r_term r with TRounding => true | _ => false end)
+  | S_maxevals_exceeded => Ok (match r_term r with TMaxevals => true | _ => false end)
+  | S_fzg => Ok (r_wfzg r)
+  | S_fzg_theta => Ok (zero_or_nan_gradient ps is_theta r)
+  | S_fzg_omega => Ok (zero_or_nan_gradient ps is_omega r)
+  | S_fzg_sigma => Ok (zero_or_nan_gradient ps is_sigma r)
+  | S_enb => spec_near_any ps (olist (r_est r))
+  | S_enb_theta => spec_near_any ps (rows_of ps is_theta (olist (r_est r)))
+  | S_enb_omega => spec_near_any ps (rows_of ps is_omega (olist (r_est r)))
+  | S_enb_sigma => spec_near_any ps (rows_of ps is_sigma (olist (r_est r)))
+  | _ => Err EInternal
   end.
 Fixpoint spec_seval (ps : list param) (r : resrec) (e : sexpr) : res bool :=
   match e with
@@ -345,21 +353,6 @@ Definition spec_strictness (s : strictness) (c : cand) : res bool :=
                           end
               end
   end.
-
-(* guards of strictness_eval_sound: both are there because the code fails *)
-Definition g_rse_not_rebound (e : sexpr) : bool := negb (uses e S_rse && uses_rse_sub e).
-Definition g_grad_nan_rows (e : sexpr) (c : cand) : bool :=
-  let g := olist (r_grad (c_res c)) in
-  let ps := c_params c in
-  (negb (uses e S_fzg_omega) || Bool.eqb (any_null (rows_of ps is_theta g)) (any_null (rows_of ps is_omega g)))
-  && (negb (uses e S_fzg_sigma) || Bool.eqb (any_null (rows_of ps is_theta g)) (any_null (rows_of ps is_sigma g))).
-
-(* the estimate (numpy.float64) and its bound (Python float) are rounded by different algorithms *)
-Definition g_near_round (e : sexpr) (c : cand) : bool :=
-  negb (uses_enb_any e)
-  || forallb (fun nv => match find (fun p => Pos.eqb (p_name p) (fst nv)) (c_params c) with
-                        | Some p => Bool.eqb (close_to_bound p (snd nv)) (close_to_bound_spec p (snd nv))
-                        | None => true end) (olist (r_est (c_res c))).
 
 (* ------------------------------------------------------------------ criteria, tests, ranking *)
 Inductive bictype := BMixed | BFixed | BRandom | BIiv.
